@@ -637,3 +637,33 @@ func (pa *Path) ResolveDeep(v ssa.Value, step int) ssa.Value {
 	}
 	return v
 }
+
+// sameCellValueOnPath: a and b are loads of the same local cell (a variable captured by a closure lives in one) and the
+// path stores nothing into that cell between the two loads: they read the same value.
+func sameCellValueOnPath(pa *Path, a, b ssa.Value) bool {
+	ua, ok1 := strip(a, false).(*ssa.UnOp)
+	ub, ok2 := strip(b, false).(*ssa.UnOp)
+	if !ok1 || !ok2 || ua.Op != token.MUL || ub.Op != token.MUL {
+		return false
+	}
+	cell, isCell := ua.X.(*ssa.Alloc)
+	if !isCell || ub.X != ssa.Value(cell) {
+		return false
+	}
+	state := 0 // 0 before the first load, 1 between, 2 after
+	same := true
+	pa.Each(func(step int, ins ssa.Instruction) bool {
+		if ins == ssa.Instruction(ua) || ins == ssa.Instruction(ub) {
+			state++
+			return state < 2
+		}
+		if state == 1 {
+			if st, ok := ins.(*ssa.Store); ok && st.Addr == ssa.Value(cell) {
+				same = false
+				return false
+			}
+		}
+		return true
+	})
+	return same && state == 2
+}
